@@ -79,7 +79,8 @@ ToggleRestat(m, c) == [m EXCEPT !.cmds[c].restat = ~@]
 ToggleOO(m, c)  == IF "c3" \in DOMAIN m.cmds /\ m.cmds["c3"].outs = <<"o3">> /\ m.cmds["c3"].ins = <<"s2">>
                    THEN [m EXCEPT !.cmds[c].oo = IF @ = <<>> THEN <<"o3">> ELSE <<>>] ELSE m
 EditsOf(m) == {BumpVer(m, c) : c \in DOMAIN m.cmds \cap {"c1", "c2"}}
-              \cup {ToggleImp(m, "c1")} \cup {ToggleRestat(m, "c1")} \cup {ToggleOO(m, "c2")}
+              \cup (IF m.cmds["c1"].gen THEN {} ELSE {ToggleImp(m, "c1")})      \* a generator command's hash is never compared
+              \cup {ToggleRestat(m, "c1")} \cup {ToggleOO(m, "c2")}
 
 XData   == [t |-> "x", n |-> "", v |-> 0, ins |-> <<>>, rd |-> <<>>]
 Src(p, v) == [t |-> "s", n |-> p, v |-> v, ins |-> <<>>, rd |-> <<>>]
@@ -133,9 +134,22 @@ InBuild ==
 MCNext == Edit \/ StartBuild \/ InBuild
 MCSpec == MCInit /\ [][MCNext]_mcvars
 
-(* vacuity witnesses: each must be VIOLATED when checked as an invariant *)
-NeverExec      == last.a # "Exec"
-NeverNull      == ~(last.a = "BuildEnd" /\ last.wasquiet)
-NeverFailedRun == ~(last.a = "Exec" /\ last.failed)
-NeverUpdate    == TRUE
+(* vacuity witnesses: each must be VIOLATED when checked as an invariant (run with -continue) *)
+How(h) == last.a = "Step" /\ last.how = h
+W_uptodate   == ~How("uptodate")
+W_needsrun   == ~How("needsrun")
+W_targets    == ~How("targets")
+W_select     == ~How("select")
+W_selectfail == ~How("select-fail")
+W_cancelskip == ~How("cancelskip")
+W_alias      == ~How("alias")
+W_update     == ~How("update")
+W_skip       == ~How("skip")
+W_execfail   == ~(last.a = "Exec" /\ last.failed)
+W_kept       == ~(last.a = "Exec" /\ last.kept)
+W_nullbuild  == ~(last.a = "BuildEnd" /\ last.wasquiet)
+W_failedend  == ~(last.a = "BuildEnd" /\ last.rc = 1)
+W_restatstop == ~(last.a = "BuildEnd" /\ last.rc = 0 /\ Len(last.execd) = 1 /\ fam = 6 /\ last.execd[1] = "c1")
+W_oo_no_trigger == ~(last.a = "BuildEnd" /\ last.rc = 0 /\ fam = 2 /\ last.execd = <<"c3", "c1">>)
+W_depfile_trigger == ~(last.a = "BuildEnd" /\ last.rc = 0 /\ fam = 2 /\ last.execd = <<"c1">>)
 =============================================================================
